@@ -49,6 +49,26 @@ check('C10', 'effect-ordering (typestate) analysis: no read of an element-refere
       'Partial: the resulting sequence itself is C01. rvalue arguments are assumed not to alias (as std::vector).',
       'DESIGN.md section 4, C10')
 
+check('C01', 'typestate / dataflow rules over the instantiated program (size-word write discipline, capacity-check dominance, single-pass iterator use, self-assignment distance) + record-layout facts',
+      'Decides six structural clauses that are each necessary for C01 (inline encoding discipline, inline span, single traversal of input ranges, no element operation for an empty erase, capacity check before every construct incl. base bookkeeping, size commit follows lifetime op); the behavioural equality with std::vector over histories is NOT decided.',
+      'Partial: necessary conditions only. Known finding F6 (input iterators) listed in known_findings.txt.',
+      'DESIGN.md section 4, C01')
+
+check('C02', 'who-may-call analysis of byte copies over the resolved call graph (incl. libstdc++ bodies) per element archetype + overload-pair effect signatures + typestate (normal paths)',
+      'Second sentence of C02 decided in full for the matrix: no memcpy/memmove/realloc touches an E* for non-relocatable E anywhere in the call graph, reallocate only for relocatable E, overload pairs consistent. First sentence: necessary structural clauses (hole re-filled once, size commits matched, no self-assignment, temporaries released, destructor layer present).',
+      'Partial: exactly-once as a count over histories is not decided.',
+      'DESIGN.md section 4, C02')
+
+check('C06', 'argument-provenance and typestate rules on allocator call sites (who passes which word), release-on-all-heap-paths analysis, hand-over effect analysis',
+      'Decides that every deallocate/reallocate call site passes the block with the capacity word that travels with it, that every path that abandons or overwrites a storage pointer released the block first, that hand-over transfers pointer+capacity jointly without element operations, and that reallocate is reached only for relocatable element types.',
+      'Partial: exactly-once as a count over histories and unequal stateful allocators are not decided.',
+      'DESIGN.md section 4, C06')
+
+check('C13', 'typestate rules over every swap2 instantiation (ordered flavour pairs): throw-before-mutation ordering, size-word write discipline, noexcept soundness on the call graph, capacity-check dominance',
+      'Decides, for all ordered pairs of the flavour matrix, that a failing exchange throws before either operand is modified (and really throws rather than terminating), that sizes are exchanged through the encoding discipline, that the deep swap is capacity-checked and the buffer exchange touches no element.',
+      'Partial: exact exchange of the element sequences is a value statement and is not decided.',
+      'DESIGN.md section 4, C13')
+
 PENDING = ['C01','C02','C03','C04','C05','C06','C07','C08','C09','C10','C11','C13','C14','C15','C16','C18','C19','C20']
 for p in PENDING:
     if p not in CHECKS:
